@@ -383,3 +383,19 @@ func certDER(version int, serial *big.Int, issuerCN, subjectCN string, spki, sig
 
 // pgpMPI: two-octet bit count, then the magnitude (same layout as the SSH1 MPI)
 func pgpMPI(z *big.Int) []byte { return ssh1MPI(z) }
+
+// ---------- multi-prime RSA (RFC 8017 A.1.2: version 1, otherPrimeInfos) ----------
+
+type otherPrime struct{ R, D, T *big.Int }
+
+func pkcs1PrivMulti(k rsaKey, others []otherPrime) []byte {
+	var infos [][]byte
+	for _, o := range others {
+		infos = append(infos, derSeq(derInt(o.R), derInt(o.D), derInt(o.T)))
+	}
+	return derSeq(derSmall(1), derInt(k.N), derInt(k.E), derInt(k.D), derInt(k.P), derInt(k.Q), derInt(k.Dp), derInt(k.Dq), derInt(k.Qinv),
+		derSeq(infos...))
+}
+func pkcs8Wrap(oid []int, inner []byte) []byte {
+	return derSeq(derSmall(0), derSeq(derOID(oid...), derNull()), derOctets(inner))
+}
